@@ -73,3 +73,140 @@ class Catalogued:
             rs = rs[:-1]
         self.seen |= set(rs)
         return sorted(self.seen)
+
+
+def expected_read(sim, cfg, vis, op):
+    """What a read_data call must return, from the writer's ground truth.
+
+    Returns dict(comps, chosen {it: restart}, absent [its], exp_its,
+    other_cls, earlier_only)."""
+    outs = sim.outputs
+    rl = op['rl']
+    simv = etsim.sim_vars(cfg)
+    comps = expand_vars(simv, op['vars'] or [etsim.aurel_name(v)
+                                             for v in simv])
+    its = sorted(set(op['it']))
+    chosen, absent, earlier_only = {}, [], []
+    for iit in its:
+        if op.get('restart', -1) >= 0:
+            r0 = op['restart']
+            cand = [r0] if (r0 in vis and iit in outs[r0].get(rl, [])) else []
+        else:
+            cand = [r for r in vis if iit in outs[r].get(rl, [])]
+        if cand:
+            chosen[iit] = cand[-1]
+            if op.get('restart', -1) < 0:
+                for r in vis:
+                    iv = etsim.interval(outs[r])
+                    if r > cand[-1] and iv and iv[0] <= iit <= iv[1]:
+                        earlier_only.append(iit)
+        else:
+            absent.append(iit)
+    rs_read = vis if op.get('restart', -1) < 0 else [op['restart']]
+    other_cls = any(cfg['restarts'][r]['classes'][rl] == 'other'
+                    for r in rs_read if r < len(cfg['restarts']))
+    return {'comps': comps, 'chosen': chosen, 'absent': absent,
+            'exp_its': [i for i in its if i in chosen],
+            'other_cls': other_cls, 'earlier_only': earlier_only}
+
+
+def check_returned(sim, cfg, op, opi, got, exp, viol, tag=''):
+    """Compare a returned read_data dict with the expectation. Returns the
+    number of arrays compared."""
+    rl = op['rl']
+    n_cmp = 0
+    got_its = [int(x) for x in got.get('it', [])]
+    if got_its != exp['exp_its']:
+        viol.append({'sig': f'read{tag}:it_column', 'op': opi,
+                     'msg': f'op#{opi} read_data({_fmt(op)}) returned it='
+                            f'{got_its}; on disk: {exp["exp_its"]}'})
+        return 0
+    if exp['comps']:
+        exp_t = [sim.time_of(i) for i in exp['exp_its']]
+        got_t = [None if x is None else float(x) for x in got.get('t', [])]
+        if got_t != exp_t:
+            viol.append({'sig': f'read{tag}:t_column', 'op': opi,
+                         'msg': f'op#{opi} read_data({_fmt(op)}) t={got_t} '
+                                f'expected {exp_t} for it={exp["exp_its"]}'})
+    for an, ev in exp['comps']:
+        if an not in got:
+            viol.append({'sig': f'read{tag}:missing_var', 'op': opi,
+                         'msg': f'op#{opi} read_data({_fmt(op)}) has no '
+                                f'column {an!r}; keys {sorted(got)}'})
+            continue
+        col = got[an]
+        if len(col) != len(exp['exp_its']):
+            viol.append({'sig': f'read{tag}:column_length', 'op': opi,
+                         'msg': f'op#{opi} column {an!r} has {len(col)} '
+                                f'entries for {len(exp["exp_its"])} its'})
+            continue
+        for n, iit in enumerate(exp['exp_its']):
+            r = exp['chosen'][iit]
+            if col[n] is None:
+                viol.append({'sig': f'read{tag}:none_entry', 'op': opi,
+                             'msg': f'op#{opi} read_data({_fmt(op)}) '
+                                    f'returned None for {an!r} it={iit} '
+                                    f'which is on disk in restart {r}'})
+                return n_cmp
+            truth = sim.truth_array(ev, iit, rl, r)
+            kind, msg = diff_kind(col[n], truth, ev, iit, rl, r)
+            n_cmp += 1
+            if kind is not None:
+                viol.append({
+                    'sig': f'read{tag}:wrong_cells:{kind}', 'op': opi,
+                    'msg': f'op#{opi} read_data({_fmt(op)}) var {an!r} '
+                           f'it={iit} rl={rl} (truth: restart {r}): ' + msg})
+                return n_cmp
+    return n_cmp
+
+
+def _fmt(op):
+    return ', '.join(f'{k}={op[k]}' for k in sorted(op) if k != 'op')
+
+
+def audit_cache(sim, cfg, h5py, glob, viol, opi):
+    """Every dataset of every all_iterations/it_<n>.hdf5 must hold the data
+    of the (variable, iteration, level) it is filed under, from the restart
+    directory it lives in.  Returns number of datasets audited."""
+    inv = {etsim.aurel_name(v): v for v in etsim.sim_vars(cfg)}
+    n = 0
+    for r in range(len(cfg['restarts'])):
+        d = sim.rdir(r) + 'all_iterations/'
+        for fn in sorted(glob.glob(d + 'it_*.hdf5')):
+            it = int(fn.rsplit('it_', 1)[1].split('.')[0])
+            with h5py.File(fn, 'r') as f:
+                for key in sorted(f.keys()):
+                    name, rl = key.rsplit(' rl=', 1)
+                    rl = int(rl)
+                    val = np.array(f[key])
+                    n += 1
+                    if name == 'it':
+                        ok, what = (val.shape == () and int(val) == it,
+                                    f'value {val!r}')
+                        kind = 'it_dataset'
+                    elif name == 't':
+                        ok, what = (val.shape == ()
+                                    and float(val) == sim.time_of(it),
+                                    f'value {val!r}, expected '
+                                    f'{sim.time_of(it)}')
+                        kind = 't_dataset'
+                    elif name not in inv:
+                        ok, what, kind = False, 'unknown variable', 'unknown'
+                    elif it not in sim.outputs[r].get(rl, []):
+                        ok, kind = False, 'not_in_this_restart'
+                        what = (f'restart {r} never wrote it={it} rl={rl}; '
+                                f'first cell: '
+                                f'{etsim.explain(val.flat[0]) if val.size else "-"}')
+                    else:
+                        truth = sim.truth_array(inv[name], it, rl, r)
+                        kind, what = diff_kind(val, truth, inv[name], it,
+                                               rl, r)
+                        ok = kind is None
+                    if not ok:
+                        viol.append({
+                            'sig': f'cache:wrong_dataset:{kind}', 'op': opi,
+                            'msg': f'after op#{opi}: {fn}[{key!r}] does not '
+                                   f'hold ({name}, it={it}, rl={rl}, restart '
+                                   f'{r}): {what}'})
+                        return n
+    return n
